@@ -245,9 +245,9 @@ pub fn sem_mode(t_ms: u64, out: &mut impl Write) {
     let ctl_ok = ok && !dl && n >= 1 && (took as u64) < t_ms / 2;
     // the lost wake-up schedule (model witness with the trigger operations as steps):
     // (every semaphore operation = scheduling point + the two gated accesses of bb-posix's handle (is_initialized load, cell) + the libc call)
-    // L: CAS N->I fails, try_wait (3), store Idle | N: as_ptr, fetch_add, CAS I->P ok, sem_post (3) | L: empty_buffer (5: eats the token), as_ptr, swap (delivers),
+    // L: CAS N->I fails, try_wait (3), store Idle | N: as_ptr, fetch_add, CAS I->P ok, sem_post (3) | L: empty_buffer (5: eats the token), second store Idle (the repair c0b284e), as_ptr, swap (delivers),
     // returns; timed_wait: CAS N->I fails (Pending), enters sem_timedwait (3) | N: CAS P->N ok, returns; notify#2: as_ptr, fetch_add, CAS I->P fails (Notified), returns Ok without post
-    let (n, took, nret, ok, dl) = sem_run("adv", t_ms, [vec![0; 5], vec![1; 6], vec![0; 11], vec![1; 4]].concat());
+    let (n, took, nret, ok, dl) = sem_run("adv", t_ms, [vec![0; 5], vec![1; 6], vec![0; 12], vec![1; 4]].concat());
     let _ = writeln!(out, "SEM adversarial timed_wait({}ms) returned {} event(s) after {} ms; second notify returned Ok={} {} ms after the wait began; deadlock={}", t_ms, n, took, ok, nret, dl);
     let lost = ok && !dl && (took as u64) >= t_ms * 8 / 10 && nret < (t_ms as i128) / 2;
     let _ = writeln!(out, "SEMVERDICT control_immediate_wakeup={} lost_wakeup_on_real_semaphore={}", ctl_ok, lost);
